@@ -74,7 +74,7 @@ LOCALS = ["x", "y1", "_z", "1a", "-d", "a.b", "a.", "é", "%20x", "(p)", "", "b/
           "ǅ", "x́", "中", "a€b", "ⅷ", "xʰ", "aः", "-", "b", "a", "c/d/e", "_"]
 STRICT_HEAD = {"1a": "1", "٣x": "٣", "%20x": "%20"}
 PREFIX_POOL = ["a", "b", "c", "_a", "_b", "", "ns1", "ns2", "a1", "b1", "default1", "é", "x.y", "A", "default", "_a1",
-               "p_a", "p_b", "pp_a"]
+               "p_a", "p_b", "pp_a", "_", "_", "__", "_1"]
 DOC_LOCALS = ["x", "y1", "b", "s", "o2", "q", "y.", "x"]
 SPECIAL_IRIS = [XMLNS + "a" + XMLNS + "b", "http://e.org/a b", "http://e.org/<x>", "", "/ab/-", "abc", XMLNS, XMLNS + "lang",
                 "http://e.org/a/b/c", "http://e.org/", "urn:x:y:z"]
@@ -174,7 +174,7 @@ def gen_case(rng, tier, i):
     if rng.random() < 0.06:
         vn.append("")
     vn = list(dict.fromkeys(vn))
-    vp = rng.sample(PREFIX_POOL, rng.randint(2, 5))
+    vp = list(dict.fromkeys(rng.sample(PREFIX_POOL, rng.randint(2, 5))))
     iris = []
     for n in list(vn):
         for _ in range(rng.randint(1, 3)):
@@ -574,7 +574,8 @@ def _check_q(im, op, res, k, viol):
             viol.append(f"bound: step {k} {kind}({u!r}) = {res!r} uses a prefix that is not bound now")
         elif not any(p in now and now[p] + l == u for p, l in cands):
             viol.append(f"expand: step {k} {kind}({u!r}) = {res!r} does not expand to the IRI")
-        elif kind in ("curie", "n3"):
+        elif kind in ("curie", "n3") or (cands and ":" in res and cands[0][0] in now and now[cands[0][0]] + cands[0][1] == u):
+            # the text p:l that curie()/n3()/qname() answered must expand back through expand_curie itself
             try:
                 back = str(im.g[0].namespace_manager.expand_curie(res))
             except Exception as e:  # noqa: BLE001
